@@ -136,6 +136,10 @@ package ctree
 //@   modifies *
 //@   allocates Tree
 //@   ensures [tree-stays-wf] TreeWf()
+//@   ensures [an-empty-path-writes-this-node-under-its-own-lock C10] len(path) == 0 ==> hits("call (*Tree).terminalAdd#0") == old(hits("call (*Tree).terminalAdd#0")) + 1 && hits("call (*Tree).intermediateAdd#0") == old(hits("call (*Tree).intermediateAdd#0"))
+//@   ensures [a-longer-path-always-descends-hand-over-hand C10 C09] len(path) > 0 ==> hits("call (*Tree).intermediateAdd#0") == old(hits("call (*Tree).intermediateAdd#0")) + 1 && hits("call (*Tree).terminalAdd#0") == old(hits("call (*Tree).terminalAdd#0"))
+//@   assert at call (*Tree).intermediateAdd#0: [descends-from-this-node-with-the-whole-path C10 C09] arg0 == t && arg1 == path && arg2 == value
+//@   assert at call (*Tree).terminalAdd#0: [writes-this-node C10 C09] arg0 == t && arg1 == value
 
 // Get: one step per element, exact names only, holding the node's read lock while descending.
 //@ func (*Tree).Get
